@@ -270,18 +270,6 @@ def run_scenario(run, tape, sc):
                        comparison_data_extractor=DataExtractor(world) if sc.data_extractor else None, compare_execution_config=cfg)
         gen = eq.run_comparison()
         killer = None
-        if sc.idle_kill and sc.dedicated:
-            def external_killer():
-                # something outside kills the idle worker between two recordings (OOM killer, operator)
-                while len(out.comparisons) <= sc.idle_kill_at and not out.finished:
-                    sim.sleep(0.01)
-                live = [p for p in mp.processes if p.alive_quiet()]
-                if live and not out.finished:
-                    out.killed_when = len(out.comparisons)      # index of the comparison that meets the dead worker
-                    run.fault('worker_dies_idle')
-                    live[-1].killed_by = 'external'
-                    live[-1].kill()
-            killer = sim.spawn(external_killer, name='external-killer')
         try:
             k = 0
             while True:
@@ -300,6 +288,15 @@ def run_scenario(run, tape, sc):
                 out.durations.append(sim.now - t0)
                 out.comparisons.append(c)
                 k += 1
+                if sc.idle_kill and sc.dedicated and k - 1 == sc.idle_kill_at:
+                    # something outside kills the idle worker between two recordings (OOM killer, operator) while
+                    # the consumer of the lazy generator is busy with the comparison it just got
+                    live = [p for p in mp.processes if p.alive_quiet()]
+                    if live:
+                        out.killed_when = len(out.comparisons)      # index of the comparison that meets the dead worker
+                        run.fault('worker_dies_idle')
+                        live[-1].killed_by = 'external'
+                        live[-1].kill()
         finally:
             gen.close()
             out.finished = True
